@@ -111,10 +111,10 @@ def check_unconstrained(spec, stats=None):
         # "Up to rounding": two floating-point orders of the same arithmetic drift apart, and the drift is
         # amplified by the conditioning of the problem and by long extrapolated trial steps.  A defect shows as
         # a jump out of nowhere; drift shows as growth from an already visible deviation.  So the tolerance is
-        # 1e-6, or 1000 times the largest deviation seen so far if that is larger -- and once a deviation above
+        # 1e-6, or 10^4 times the largest deviation seen so far (observed growth in one extrapolated trial step: x1045) if that is larger -- and once a deviation above
         # 1e-6 has been accepted as drift the comparison has left the regime in which it means anything and
         # stops there (counted).
-        tol_i = max(1e-6, 1e3 * drift)
+        tol_i = max(1e-6, 1e4 * drift)
         if drift > 1e-6:
             if stats is not None:
                 stats.bump("comparison-ended-by-accumulated-rounding-drift")
